@@ -88,6 +88,7 @@ def run_array(case, failures, hsh):
         # F: both column-major; T: both transposed views; Fr: only the rates column-major; Fc: only the counts column-major
     else:
         variants += [('C', float, int)]                              # integer count array
+    variants += [('C', numpy.float32, float)]                        # rates stored in single precision
     for rates in case['rates']:
       for layout, rdt, cdt in variants:
         f = numpy.array(rates, dtype=rdt).reshape(shape)
@@ -95,8 +96,11 @@ def run_array(case, failures, hsh):
             f = numpy.asfortranarray(f)
         elif layout == 'T':
             f = numpy.ascontiguousarray(f.T).T
-        if layout != 'C' or cdt is not float:
-            if rates != case['rates'][0] and hash(tuple(rates)) % 4:
+        rates_given = rates
+        if rdt is numpy.float32:
+            rates = [float(x) for x in numpy.array(rates_given, dtype=numpy.float32)]      # the stored values are the rates
+        if layout != 'C' or cdt is not float or rdt is not float:
+            if rates_given != case['rates'][0] and hash(tuple(rates_given)) % 4:
                 continue            # layout / dtype variants on a fixed quarter of the rate assignments (and always on the first)
         for counts in count_list:
             c = numpy.array(counts, dtype=cdt).reshape(shape)
@@ -107,8 +111,9 @@ def run_array(case, failures, hsh):
             states += 1
             if max(counts) > 1 or 0.0 in rates or max(counts) == 0:
                 nontriv += 1
-            cls = cls_of(rates, counts) + ('' if (layout == 'C' and cdt is float) else f',layout={layout},counts={cdt.__name__}')
-            rep = dict(kind='array1', shape=list(shape), rates=rates, counts=counts, layout=layout, cdt=cdt.__name__)
+            cls = cls_of(rates, counts) + ('' if (layout == 'C' and cdt is float and rdt is float) else f',layout={layout},counts={cdt.__name__}' + (',float32-rates' if rdt is numpy.float32 else ''))
+            rep = dict(kind='array1', shape=list(shape), rates=rates_given, counts=counts, layout=layout, cdt=cdt.__name__, rdt=('float32' if rdt is numpy.float32 else 'float'))
+            c_before, f_before = c.copy(), f.copy()
             try:
                 got = float(be.binary_joint_log_likelihood_ndarray(f, c))
                 want, mag = ref_binary(rates, counts)
@@ -129,6 +134,11 @@ def run_array(case, failures, hsh):
                                          f'got {got!r}, definition gives {want!r} for rates {rates} counts {counts} shape {shape}', rep))
             except Exception as e:
                 failures.append(Fail(f'brier_evaluations._brier_score_ndarray|{type(e).__name__}|{cls}', f'{type(e).__name__}: {e} rates={rates} counts={counts}', rep))
+            # the caller's arrays are inputs: scoring must leave them as they were (they are scored again, against other forecasts)
+            if not (numpy.array_equal(c, c_before) and numpy.array_equal(f, f_before)):
+                failures.append(Fail(f'binomial/brier array functions|callers-array-modified|{cls}',
+                                     f'after scoring, counts {c_before.ravel().tolist()} -> {c.ravel().tolist()}, rates {f_before.ravel().tolist()} -> {f.ravel().tolist()}', rep))
+        rates = rates_given
         if len(failures) > 200:
             break
     return evals, nontriv, states
@@ -283,7 +293,8 @@ def run_case(case):
         from csep.core import binomial_evaluations as be, brier_evaluations as br
         shape = tuple(case['shape'])
         rates, counts = case['rates'], case['counts']
-        f = numpy.array(rates, dtype=float).reshape(shape)
+        f = numpy.array(rates, dtype=(numpy.float32 if case.get('rdt') == 'float32' else float)).reshape(shape)
+        rates = [float(x) for x in f.ravel()]
         c = numpy.array(counts, dtype=(int if case.get('cdt') == 'int' else float)).reshape(shape)
         if case.get('layout') == 'F':
             f, c = numpy.asfortranarray(f), numpy.asfortranarray(c)
@@ -293,7 +304,8 @@ def run_case(case):
             c = numpy.asfortranarray(c)
         elif case.get('layout') == 'T':
             f, c = numpy.ascontiguousarray(f.T).T, numpy.ascontiguousarray(c.T).T
-        cls = cls_of(rates, counts) + ('' if (case.get('layout', 'C') == 'C' and case.get('cdt', 'float') == 'float') else f',layout={case.get("layout")},counts={case.get("cdt")}')
+        cls = cls_of(rates, counts) + ('' if (case.get('layout', 'C') == 'C' and case.get('cdt', 'float') == 'float' and case.get('rdt', 'float') == 'float') else f',layout={case.get("layout")},counts={case.get("cdt")}' + (',float32-rates' if case.get('rdt') == 'float32' else ''))
+        c_before = c.copy()
         got = float(be.binary_joint_log_likelihood_ndarray(f, c))
         want, mag = ref_binary(rates, counts)
         if not same(got, want, mag):
@@ -301,6 +313,8 @@ def run_case(case):
         got = float(br._brier_score_ndarray(f, c))
         if not same(got, rs.brier(rates, counts), 2.0):
             failures.append(Fail(f'brier_evaluations._brier_score_ndarray|differs-from-definition|{cls}', f'got {got!r} want {rs.brier(rates, counts)!r}', case))
+        if not numpy.array_equal(c, c_before):
+            failures.append(Fail(f'binomial/brier array functions|callers-array-modified|{cls}', f'{c_before.ravel().tolist()} -> {c.ravel().tolist()}', case))
         evals, nontriv, states = 2, 1, 1
     elif k == 'public':
         evals, nontriv, states = run_public(case, failures, hsh)
